@@ -117,6 +117,21 @@ def parse_tree(lines):
     return t
 
 
+def tree_from_script(ops):
+    """{path: kind} built by a history of mkdir_p / write_all / mkfile on an empty filesystem (no links, parents created first):
+    independent of the listing code under test, unlike the driver's tree dump."""
+    t = {'/': 'd'}
+    for op in ops:
+        f = op.split(' ')
+        if f[0] == 'mkdir_p':
+            parts = [x for x in f[1].split('/') if x]
+            for i in range(1, len(parts) + 1):
+                t['/' + '/'.join(parts[:i])] = 'd'
+        elif f[0] in ('write_all', 'mkfile'):
+            t[f[1]] = 'f'
+    return t
+
+
 def children(tree, p):
     pre = p.rstrip('/') + '/'
     return [q for q in tree if q != p and q.startswith(pre) and '/' not in q[len(pre):]]
